@@ -633,15 +633,14 @@ impl Relations {
 
     /// Insert a new entry at the given index
     pub fn insert(&mut self, idx: usize, entry: Entry) {
+        // A copy of the entry that can be attached to this tree
+        let entry: SyntaxElement = SyntaxNode::new_root_mut(entry.0.green().into_owned()).into();
         let (position, new_children) = if let Some(current_entry) = self.entries().nth(idx) {
             // In front of an existing entry: the new entry and its separator
-            let to_insert: Vec<NodeOrToken<GreenNode, GreenToken>> = vec![
-                entry.0.green().into(),
-                NodeOrToken::Token(GreenToken::new(COMMA.into(), ",")),
-                NodeOrToken::Token(GreenToken::new(WHITESPACE.into(), " ")),
-            ];
-
-            (current_entry.0.index(), to_insert)
+            (
+                current_entry.0.index(),
+                vec![entry, make_token(COMMA, ","), make_token(WHITESPACE, " ")],
+            )
         } else {
             // At the end: separate from whatever precedes (an entry or a
             // substitution variable), unless the field is empty or already
@@ -655,27 +654,15 @@ impl Relations {
             (
                 child_count,
                 match last.map(|n| n.kind()) {
-                    None => vec![entry.0.green().into()],
-                    Some(COMMA) => vec![
-                        NodeOrToken::Token(GreenToken::new(WHITESPACE.into(), " ")),
-                        entry.0.green().into(),
-                    ],
-                    Some(_) => vec![
-                        NodeOrToken::Token(GreenToken::new(COMMA.into(), ",")),
-                        NodeOrToken::Token(GreenToken::new(WHITESPACE.into(), " ")),
-                        entry.0.green().into(),
-                    ],
+                    None => vec![entry],
+                    Some(COMMA) => vec![make_token(WHITESPACE, " "), entry],
+                    Some(_) => vec![make_token(COMMA, ","), make_token(WHITESPACE, " "), entry],
                 },
             )
         };
-        // We can safely replace the root here since Relations is a root node
-        self.0 = SyntaxNode::new_root_mut(
-            self.0.replace_with(
-                self.0
-                    .green()
-                    .splice_children(position..position, new_children),
-            ),
-        );
+        // Edit the tree in place, so that handles obtained earlier (entries,
+        // relations) keep pointing into this field
+        self.0.splice_children(position..position, new_children);
     }
 
     /// Replace the entry at the given index
@@ -1061,6 +1048,18 @@ impl Entry {
             self.0 = new_root;
         }
     }
+}
+
+/// A single token that can be spliced into a mutable tree.
+fn make_token(kind: SyntaxKind, text: &str) -> SyntaxElement {
+    let mut builder = GreenNodeBuilder::new();
+    builder.start_node(ROOT.into());
+    builder.token(kind.into(), text);
+    builder.finish_node();
+    SyntaxNode::new_root_mut(builder.finish())
+        .first_token()
+        .unwrap()
+        .into()
 }
 
 fn inject(builder: &mut GreenNodeBuilder, node: SyntaxNode) {
